@@ -19,6 +19,7 @@ CONSTANTS
   JitterChoices = {99999}
   Deviations = {"F12", "F14"}
   MaxApps = 30
+  MaxSucc = 6
   Depth = 60
   BootSize = 0
   WProgress = 45
